@@ -391,7 +391,7 @@ fn orphan_child_probe() {
     pool_info(&n, "N before reorg", &[("t1", &t1), ("child", &ch)]);
     // side chain on M: shares block 1, commits the conflicting t1x
     m.process(&main[0]);
-    if crate::pargs().nth(2).as_deref() != Some("noconflict") { println!("M submit t1x {:?}", m.shared.tx_pool_controller().submit_local_tx(t1x.clone()).unwrap().map_err(|e| e.to_string())); }
+    if std::env::args().nth(2).as_deref() != Some("noconflict") { println!("M submit t1x {:?}", m.shared.tx_pool_controller().submit_local_tx(t1x.clone()).unwrap().map_err(|e| e.to_string())); }
     std::thread::sleep(std::time::Duration::from_millis(200));
     let mut side = vec![];
     for _ in 0..6 { let b = m.mine(3); m.process(&b); side.push(b); std::thread::sleep(std::time::Duration::from_millis(150)); }
@@ -1195,8 +1195,8 @@ fn dao_probe(seed: u64, steps: usize) {
     std::process::exit(0);
 }
 
-pub fn probe_main() {
-    let args: Vec<String> = crate::pargs().collect();
+fn main() {
+    let args: Vec<String> = std::env::args().collect();
     if args.len() > 2 && args[1] == "freeze" { freezer_probe(&args[2]); }
     if args.len() > 1 && args[1] == "script" { script_probe(); }
     if args.len() > 1 && args[1] == "mmr" { mmr_probe(); }
